@@ -264,7 +264,13 @@ impl Distrib for Uniform<f32> {
         // Leaves a lot of precision unused near zero, but it's okay.
         let (exp, mantissa) = (127 << 23, rng.next_bits() >> 41);
         let unit = f32::from_bits(exp | mantissa as u32) - 1.0;
-        unit * (end - start) + start
+        let res = unit * (end - start) + start;
+        // Rounding can carry the result up to `end`, which is excluded
+        if res >= end && start < end {
+            end.next_down()
+        } else {
+            res
+        }
     }
 }
 
